@@ -883,11 +883,20 @@ let sieveP =
 
 type clock = { ck_o : ent list; ck_hand : nat }
 
+(** val esetcost : n -> n -> ent list -> ent list **)
+
+let rec esetcost k c = function
+| [] -> []
+| e :: t ->
+  if N.eqb k (ekey e)
+  then ((k, c), (eflag e)) :: (esetcost k c t)
+  else e :: (esetcost k c t)
+
 (** val clock_admit : n -> n -> clock -> clock **)
 
 let clock_admit k c s =
   if ehas k s.ck_o
-  then s
+  then { ck_o = (esetcost k c s.ck_o); ck_hand = s.ck_hand }
   else { ck_o = (app s.ck_o (((k, c), false) :: [])); ck_hand = s.ck_hand }
 
 (** val clock_remove : n -> clock -> clock **)
